@@ -213,6 +213,8 @@ def run_c17(tier):
     cfgs = [rt.cfg('c17r', 'D2', w=8, h=8, w2=64, h2=64, type2=1, kind=0), rt.cfg('c17r', 'D2', w=64, h=64, binning=2, w2=8, h2=8, binning2=1, kind=1),
             rt.cfg('c17r', 'D2', w=8, h=8, binning=2, w2=64, h2=64, kind=0), rt.cfg('c17r', 'D2', w=64, h=64, w2=1, h2=1, kind=2, type2=4),
             rt.cfg('c17r', 'D2', w=8, h=8, w2=64, h2=64, type2=1, kind=0, bufbytes=16384), rt.cfg('c17r', 'D2', w=64, h=64, w2=8, h2=8, binning2=1, kind=1, bufbytes=16384),
+            rt.cfg('c17t', 'D2', w=32, h=32, w2=4, h2=4, kind=2, type2=0, bufbytes=16384, trigger=1, frames=2), rt.cfg('c17t', 'D2', w=4, h=4, w2=32, h2=32, kind=0, type2=0, bufbytes=16384, trigger=1, frames=2),
+            rt.cfg('c17t', 1, w=64, h=64, binning=2, w2=8, h2=8, binning2=1, kind=1, type2=0, bufbytes=16384, trigger=1, frames=2),
             rt.cfg('c17r', 'D2', w=32, h=32, w2=4, h2=4, kind=2, type2=0, bufbytes=16384, trigger=1), rt.cfg('c17r', 'D2', w=4, h=4, w2=32, h2=32, kind=0, type2=0, bufbytes=16384, trigger=1),
             rt.cfg('c17r', 1, w=8, h=8, w2=64, h2=64, kind=0),
             rt.cfg('c17r', 'D1', w=8, h=8, binning=2, w2=64, h2=64, kind=0, misalign=1), rt.cfg('c17r', 'D1', w=33, h=3, binning=4, w2=8, h2=8, binning2=2, kind=1, misalign=1)]
